@@ -325,6 +325,22 @@ class ModelsOps:
             if isinstance(l, ListV) and isinstance(r, ListV) and l.items is not None and r.items is not None \
                     and dn in ("__eq__", "__ne__"):
                 return self.tuple_eq(l, r, node, dn == "__ne__")
+            if type(l).__name__ == "DictV" and type(r).__name__ == "DictV" and dn in ("__eq__", "__ne__"):
+                # dicts are equal when they hold equal values under equal keys
+                def views(d):
+                    out = []
+                    for k_, v_ in d.items:          # later entries override earlier ones
+                        out = [(k2, v2) for k2, v2 in out if not self.keys_equal(k2, k_, node)] + [(k_, v_)]
+                    return out
+                a_, b_ = views(l), views(r)
+                same = len(a_) == len(b_)
+                if same:
+                    for k_, v_ in a_:
+                        hit = [v2 for k2, v2 in b_ if self.keys_equal(k2, k_, node)]
+                        if not hit or not self.truth(self.compare(ast.Eq, v_, hit[0], node), node):
+                            same = False
+                            break
+                return BoolV(same == (dn == "__eq__"))
             if isinstance(l, ObjV) and isinstance(r, ObjV) and l.ci is not None and l.ci is r.ci and \
                     "dataclass" in getattr(l.ci, "decorators", ()) and dn in ("__eq__", "__ne__"):
                 same = all(self.truth(self.compare(ast.Eq, l.fields.get(f, NONE), r.fields.get(f, NONE), node), node)
@@ -1196,6 +1212,8 @@ class ModelsOps:
     def parse_number(self, s: StrV, node, how):
         if s.const is not None:
             try:
+                if how == "Decimal" and "/" in s.const:
+                    raise ValueError("a ratio is no decimal literal")
                 return Num(RF.const(Fraction(s.const)), "dec" if how == "Decimal" else "frac")
             except ValueError:
                 ex = ExcV("ValueError", (), node, self.where(node))
@@ -1383,6 +1401,8 @@ class ModelsOps:
             v = args[0]
             if isinstance(v, TupleV):
                 return self.num_const(len(v.items))
+            if isinstance(v, StrV) and v.const is not None:
+                return self.num_const(len(v.const))
             if isinstance(v, GenV):
                 I.raise_("TypeError", node)
             if isinstance(v, ListV):
@@ -1464,6 +1484,10 @@ class ModelsOps:
                 return v
             return IterV(seq)
         if name == "get_dflt_rounding_mode":
+            if getattr(self.st, "at_class_creation", False):
+                e = EnumV("ROUNDING", "<the default mode when the class was created>")
+                e.origin = "stale default"
+                return e
             e = EnumV("ROUNDING", None)
             e.origin = "default"
             return e
@@ -1846,6 +1870,10 @@ class ModelsOps:
         if self.inline_ctor:
             return I.call_function(new, [cls] + list(args), kwargs, node)
         params = [p.arg for p in new.node.args.args][1:]
+        if len(args) > 2 or any(k not in params[:2] for k in kwargs):
+            # the summary describes Quantity(amount, unit); a call that passes anything else (a further parameter of
+            # an extended constructor) is evaluated on the constructor's own code
+            return I.call_function(new, [cls] + list(args), kwargs, node)
         vals = dict(zip(params, args))
         vals.update(kwargs)
         amount = vals.get(params[0])
